@@ -107,6 +107,19 @@ func ext۰reflect۰rtype۰In(fr *frame, args []value) value {
 	return makeReflectType(rtype{args[0].(rtype).t.(*types.Signature).Params().At(i).Type()})
 }
 
+func ext۰reflect۰rtype۰Name(fr *frame, args []value) value {
+	// Signature: func (t reflect.rtype) string
+	switch t := args[0].(rtype).t.(type) {
+	case *types.Named:
+		return t.Obj().Name()
+	case *types.Basic:
+		return t.Name()
+	case *types.Alias:
+		return t.Obj().Name()
+	}
+	return ""
+}
+
 func ext۰reflect۰rtype۰Kind(fr *frame, args []value) value {
 	// Signature: func (t reflect.rtype) uint
 	return uint(reflectKind(args[0].(rtype).t))
@@ -561,6 +574,7 @@ func initReflect(i *interpreter) {
 		"Field":     newMethod(i.reflectPackage, rtypeType, "Field"),
 		"In":        newMethod(i.reflectPackage, rtypeType, "In"),
 		"Kind":      newMethod(i.reflectPackage, rtypeType, "Kind"),
+		"Name":      newMethod(i.reflectPackage, rtypeType, "Name"),
 		"NumField":  newMethod(i.reflectPackage, rtypeType, "NumField"),
 		"NumIn":     newMethod(i.reflectPackage, rtypeType, "NumIn"),
 		"NumMethod": newMethod(i.reflectPackage, rtypeType, "NumMethod"),
